@@ -165,7 +165,20 @@ def match_known(known, prop_id, obligation):
 
 
 # ------------------------------------------------------------------ main check
+def cleanup_work():
+    import shutil
+    work = os.environ.get('VERIF_WORK_DIR', os.path.join(VERIF, '.work'))
+    shutil.rmtree(os.path.join(work, 'p%d' % os.getpid()), ignore_errors=True)
+
+
 def check_property(pid, tier):
+    try:
+        return _check_property(pid, tier)
+    finally:
+        cleanup_work()
+
+
+def _check_property(pid, tier):
     t0 = time.time()
     prop = P.PROPS[pid]
     seed = int(os.environ.get('VERIF_SEED', '0') or 0)
